@@ -43,6 +43,8 @@ func C09(c *core.Ctx) {
 	c.Rule("C09-R4", "every caller of a verification function heeds its error before any success marker", 4)
 	c.Rule("C09-R5", "Sign signs the header of the same envelope", 1)
 	c.Rule("C09-R6", "inside dsig, every success exit of a key-verifying function has just found the go-jose verification (or a dsig verifier it delegates to) error-free", 2)
+	c09KeysForwarded(c)
+	c09SignParseAlgorithms(c, "C09-R8")
 
 	dsigPath := core.ModPath + "/dsig"
 	// protected dsig API: functions of package dsig that reach a go-jose sink
